@@ -12,6 +12,7 @@ import (
 
 	"verifharness/engines/c01"
 	"verifharness/engines/c04"
+	"verifharness/engines/c05"
 	"verifharness/engines/c06"
 	"verifharness/engines/c08"
 	"verifharness/engines/c10"
@@ -24,6 +25,7 @@ import (
 var engines = map[string]func(*gen.Ctx) error{
 	"c01": c01.Run,
 	"c04": c04.Run,
+	"c05": c05.Run,
 	"c06": c06.Run,
 	"c03": pipe.RunAs("C03"),
 	"c07": pipe.RunAs("C07"),
